@@ -144,6 +144,9 @@ func (ex *Exec) evalLocation(se *SpecEnv, e SExpr) *Addr {
 		}
 		se.fail(e, "modifies: no field %s", x.Name)
 	case *SIdent:
+		if a := ex.ghostAddr(se.pkg, x.Name); a != nil {
+			return a
+		}
 		// a package-level variable
 		if obj, ok := se.pkg.Scope().Lookup(x.Name).(*types.Var); ok {
 			g := ex.eng.globalOf(obj)
